@@ -62,6 +62,9 @@ Definition append_cur (x : string) (c : cell) : cell := write_obj (ref c) (cur c
 (* a list object nobody reachable refers to yet *)
 Definition fresh (c : cell) : Z := Z.max (ref c) (cap c) + 1.
 
+(* name = name + [x]: the name moves to a new list object *)
+Definition rebind_with (x : string) (c : cell) : cell := bind (fresh c) (write_obj (fresh c) (cur c ++ [x]) c).
+
 Record St := mkSt {
   argv : cell;                    (* sys.argv *)
   path : cell;                    (* sys.path *)
@@ -141,6 +144,22 @@ Definition rt_leftover (rearm_first : bool) (es : list tevent) : nat :=
 (* the order in the current tree *)
 Definition rearm_before_dump : bool := true.
 
+(* ---- ordinary use of the importable decorator -------------------------------------------------- *)
+Inductive uop :=
+| UEnable                         (* line_profiler.profile.enable() *)
+| UDisable                        (* line_profiler.profile.disable() *)
+| UDecorate.                      (* line_profiler.profile(f) *)
+
+(* through the translated methods, in the world of the moment (no LINE_PROFILE, sys.argv = av);
+   a call that raises leaves the object as it was *)
+Definition uop_gp (u : uop) (av : list string) (g : GP) : GP :=
+  match u with
+  | UEnable => match enable g None with Ok (_, g') => g' | Err _ => g end
+  | UDisable => match disable g with Ok (_, g') => g' | Err _ => g end
+  | UDecorate => match decorate g (fun _ => None) av (Fn 0) with Ok (_, g') => g' | Err _ => g end
+  end.
+Definition uses_gp (us : list uop) (av : list string) (g : GP) : GP := fold_left (fun g u => uop_gp u av g) us g.
+
 (* ---- inputs of one run ---------------------------------------------------------------- *)
 Inductive outcome := Return | SysExit | KbdInt | Exc.     (* how the profiled program ends *)
 Inductive result := Returned | Raised.                    (* how kernprof.main ends *)
@@ -149,6 +168,8 @@ Record Prog := mkProg {
   p_outcome : outcome;
   p_touch_path : bool;     (* the program does sys.path.append("/prog-added") *)
   p_touch_argv : bool;     (* the program does sys.argv.append("prog-added") *)
+  p_rebind_path : bool;    (* ... and then sys.path = sys.path + ["/prog-rebound"]  (a NEW list) *)
+  p_rebind_argv : bool;    (* ... and sys.argv = sys.argv + ["prog-rebound"] *)
   p_uses_builtin : bool;   (* the program decorates with the builtin `profile` whenever one exists
                               (`try: profile / except NameError: profile = lambda f: f`) *)
   p_regs : Z;              (* -l -p sel: how many of the program's import statements the selection
@@ -164,6 +185,8 @@ Record Opts := mkOpts {
   o_builtin : bool;            (* -b *)
   o_module : bool;             (* -m mod *)
   o_setup : option string;     (* -s file: Some (dirname file) *)
+  o_setup_uses : list uop;     (* what the setup file does with line_profiler.profile (it runs
+                                  "outside of the profiler": before kernprof takes the decorator over) *)
   o_interval : Z;              (* -i N (0 = not given / 0) *)
   o_new_argv : list string;    (* [script] + args *)
   o_script_dir : string;       (* os.path.dirname(script_file) *)
@@ -173,6 +196,8 @@ Record Opts := mkOpts {
 (* _kernprof_overwrite through the translated method (it never raises) *)
 Definition overwrite (g : GP) (p : option prof) : GP :=
   match kernprof_overwrite g p with Ok (_, g') => g' | Err _ => g end.
+
+Definition setup_uses (o : Opts) : list uop := match o_setup o with Some _ => o_setup_uses o | None => [] end.
 
 Definition result_of (o : outcome) : result := match o with Exc => Raised | _ => Returned end.
 
@@ -214,6 +239,7 @@ Definition main_body (cfg : Fixes) (o : Opts) (p : Prog) (s : St) : result * St 
   let s := upd_path (fun c => if o_module o then insert0 (o_cwd o) c else c) s in
   (* 449-459: -s: sys.path.insert(0, dirname(setup)); the setup file is executed *)
   let s := upd_path (fun c => match o_setup o with Some d => insert0 d c | None => c end) s in
+  let s := set_gp (uses_gp (setup_uses o) (cur (argv s)) (gp s)) s in
   (* 461-469: prof = LineProfiler() / ContextualProfile() *)
   let pr := Ext (next_prof s) in
   let s := set_next_prof (next_prof s + 1) s in
@@ -234,6 +260,8 @@ Definition main_body (cfg : Fixes) (o : Opts) (p : Prog) (s : St) : result * St 
   let s := set_tracing (if is_some found_tracing then found_tracing else Some pr) s in
   let s := upd_path (fun c => if p_touch_path p && body_runs o p found_tracing then append_cur "/prog-added" c else c) s in
   let s := upd_argv (fun c => if p_touch_argv p && body_runs o p found_tracing then append_cur "prog-added" c else c) s in
+  let s := upd_path (fun c => if p_rebind_path p && body_runs o p found_tracing then rebind_with "/prog-rebound" c else c) s in
+  let s := upd_argv (fun c => if p_rebind_argv p && body_runs o p found_tracing then rebind_with "prog-rebound" c else c) s in
   (* ... except the registrations of auto-profiling: enable_by_count() once per registered import
      (line_profiler/autoprofile/line_profiler_utils.py:25), never disabled before a77d816; now
      main's finally does `while prof.enable_count > 0: prof.disable_by_count()` *)
@@ -280,24 +308,21 @@ Fixpoint exec_runs (cfg : Fixes) (s : St) (rs : list run) : St :=
 (* ---- runs interleaved with ordinary use of the decorator ---------------------------------------- *)
 Inductive act :=
 | ARun (o : Opts) (p : Prog)      (* kernprof.main([...]) *)
-| AEnable                         (* line_profiler.profile.enable() *)
-| ADisable                        (* line_profiler.profile.disable() *)
-| ADecorate.                      (* line_profiler.profile(f) *)
+| AUse (u : uop).                 (* enable() / disable() / a decoration, by the host program *)
 
-(* ordinary use acts on the decorator only, through the translated methods, in the world of the
-   moment (no LINE_PROFILE, the current sys.argv); a call that raises leaves the object as it was *)
-Definition do_user (a : act) (s : St) : St :=
-  match a with
-  | AEnable => match enable (gp s) None with Ok (_, g) => set_gp g s | Err _ => s end
-  | ADisable => match disable (gp s) with Ok (_, g) => set_gp g s | Err _ => s end
-  | ADecorate => match decorate (gp s) (fun _ => None) (heap_ (argv s) (ref (argv s))) (Fn 0) with
-                 | Ok (_, g) => set_gp g s | Err _ => s end
-  | ARun _ _ => s
-  end.
+Definition do_uop (u : uop) (s : St) : St := set_gp (uop_gp u (cur (argv s)) (gp s)) s.
 Definition do_act (cfg : Fixes) (s : St) (a : act) : St :=
-  match a with ARun o p => snd (main cfg o p s) | _ => do_user a s end.
+  match a with ARun o p => snd (main cfg o p s) | AUse u => do_uop u s end.
 Definition exec_acts (cfg : Fixes) (s : St) (acts : list act) : St := fold_left (do_act cfg) acts s.
-Definition is_user (a : act) : bool := match a with ARun _ _ => false | _ => true end.
+
+(* what the ordinary uses ALONE do to the decorator: the host's uses in the host's world (sys.argv
+   = av), the uses made by a run's setup file in the world kernprof gives it (sys.argv = [script] + args) *)
+Fixpoint user_gp (acts : list act) (av : list string) (g : GP) : GP :=
+  match acts with
+  | [] => g
+  | ARun o p :: t => user_gp t av (uses_gp (setup_uses o) (o_new_argv o) g)
+  | AUse u :: t => user_gp t av (uop_gp u av g)
+  end.
 
 (* ---- what can be observed, and the property ------------------------------------------- *)
 (* ordinary use of the decorator afterwards: profile(f) raises iff this is false
@@ -326,8 +351,12 @@ Definition restored (b a : St) : bool :=
   argv_ok b a && path_ok b a && profile_ok b a && tracing_ok b a && timers_ok b a.
 
 (* the full statement of C19 for a given behaviour of main *)
+(* (setup files that themselves use the decorator are ordinary use: see [user_gp]) *)
+Definition setup_silent (rs : list run) : bool :=
+  forallb (fun r => match setup_uses (fst r) with [] => true | _ => false end) rs.
 Definition C19_statement (cfg : Fixes) : Prop :=
-  forall (s : St) (rs : list run), usable (gp s) = true -> restored s (exec_runs cfg s rs) = true.
+  forall (s : St) (rs : list run), usable (gp s) = true -> setup_silent rs = true ->
+                                   restored s (exec_runs cfg s rs) = true.
 
 (* two interpreter states nobody can tell apart through the five clauses *)
 Definition veq (a b : St) : Prop :=
@@ -346,6 +375,6 @@ Definition mk_state (argv0 : list string) (argv_rebound : bool) (path0 : list st
   mkSt (mk_cell argv0 argv_rebound) (mk_cell path0 path_rebound) g None 0 None nprof.
 
 Definition st0 : St := mk_state ["driver"] false ["/lib"] false gp_init 0.
-Definition opts0 : Opts := mkOpts true false false None 0 ["prog.py"; "a"] "" "/T".
-Definition returns : Prog := mkProg Return false false true 0 [].
-Definition raises : Prog := mkProg Exc false false true 0 [Fire].
+Definition opts0 : Opts := mkOpts true false false None [] 0 ["prog.py"; "a"] "" "/T".
+Definition returns : Prog := mkProg Return false false false false true 0 [].
+Definition raises : Prog := mkProg Exc false false false false true 0 [Fire].
